@@ -218,7 +218,7 @@ def check_pair_loop(chk, fi: FuncInfo, loop: ast.For, sites: c03e.Sites, c: Dict
                 expected=["chain", "number", "icode"],
                 found=sorted(attrs),
             )
-    id_keys = {t[0] for t in ids}
+    id_keys = {t[0] for t in ids if t[2] == {"<object>"} or t[2] <= {"chain", "number", "icode", "model", "name", "label", "auth"}}
     rec_sets = {tag: [frozenset((k, v) for k, v, n in p.conds if group_of(n) == tag) for p, e in recs] for tag in ("normals", "offset")}
     extra: Dict[str, Tuple[ast.AST, bool]] = {}
     n_silent = 0
